@@ -69,7 +69,7 @@ CHECKS["C17"] = ("Find", "TLC model check of the upward walk as a state machine 
                  "watchdog, in several spellings of the two paths, judged by a TLC relation",
                  "Find.tla is checked for every chain configuration, start, stop and pair of path spellings (clean, trailing separator, dotted, relative "
                  "to a working directory): the walk terminates, returns the declaratively defined nearest spokfile and never looks above the stop "
-                 "directory; the pinned loop and the string-comparing walk are refuted. In the thorough tier FindProof.tla (TLAPS, 279 obligations) proves "
+                 "directory; the pinned loop, the string-comparing walk and the walk that climbs above the stop directory are refuted. In the thorough tier FindProof.tla (TLAPS, 376 obligations) proves "
                  "Correct (CHOOSE-free form, TLC checks the two forms agree), NeverAboveStop and a strictly decreasing natural-valued rank (termination) for every depth. Every chain of depth <= 2 (quick) / <= 3 "
                  "plus sampled depth 4 (thorough) x start x stop is built for real and searched in a watched child process, also with the other spellings "
                  "(chdir for relative ones); TLC evaluates Conforms_C17 on every record.",
